@@ -36,7 +36,8 @@ def shards(tier):
 def required_counters(tier):
     return {'judged:class': 200, 'judged:param': 500, 'judged:meta': 200, 'judged:membership-sky-vs-pixel': 500,
             'judged:membership-pixel-vs-sky': 500, 'judged:text-rotation': 5, 'lane:pix2sky2pix:CompoundPixelRegion': 3,
-            'lane:sky2pix2sky:CompoundSkyRegion': 3, 'history-steps': 50, 'judged:history': 50, 'grid-sky-queries': 100, 'wide-field-cases': 8}
+            'lane:sky2pix2sky:CompoundSkyRegion': 3, 'history-steps': 50, 'judged:history': 50, 'grid-sky-queries': 100, 'wide-field-cases': 8, 'queries-in-another-frame': 100,
+            'queries-in-same-frame-class-other-equinox': 10, 'judged:membership-other-query-frame': 300}
 
 
 def generate(rng, tier, shard, nshards):
@@ -294,6 +295,30 @@ def membership_checks(obs, pix, sky, w, case):
         obs.check(bool(s_i) == bool(exp_b[i]) and bool(p_i) == bool(exp_b[i]) and np.ndim(s_i) == 0, 'scalar-membership-differs-from-array-membership',
                   f'{type(sky).__name__}.contains(scalar position) gave {s_i!r}, its pixel image {p_i!r}, the array query {bool(exp_b[i])} '
                   f'(include={dict.get(sky.meta, "include", "absent")!r})', 'membership-sky-vs-pixel')
+    # (1d) the same positions handed over in another celestial frame - another frame class, or the image's own frame class at
+    # another equinox (an FK5 J1975 catalogue on an FK5 J2000 image): the same places on the sky, so the same answers
+    from astropy.coordinates import FK5, FK4, ICRS, Galactic
+    fname = sc.frame.name
+    others = [ICRS(), Galactic(), FK5(equinox='J1975'), FK4(equinox='B1900'), FK5(equinox='J2000'), FK4(equinox='B1950')]
+    other = others[case['rs'] % len(others)]
+    if not other.is_equivalent_frame(sc.frame):
+        sc_o = sc.transform_to(other)
+        g_o = np.broadcast_to(np.asarray(sky.contains(sc_o, w)), px.shape)
+        obs.count('queries-in-another-frame')
+        if other.name == fname:
+            obs.count('queries-in-same-frame-class-other-equinox')
+        # the transformation there and back moves positions by ~1e-9 px at most; FK4 e-terms up to ~1e-7 deg: widen the band
+        # (astropy's own there-and-back noise reaches 5e-5 arcsec through FK4: expressed in pixels of this image)
+        noise_px = (1e-4 / 3600.0) / case['wcs']['scale']
+        wide = dec & (np.abs(geom.shape_margin(pimg, np.asarray(conv.x, dtype=float), np.asarray(conv.y, dtype=float))[0]) > 1e-3 * L + noise_px
+                      if type(pimg).__name__ != 'CompoundPixelRegion' else False)
+        bad_o = wide & (g_o != exp_b)
+        if np.any(bad_o):
+            i = int(np.flatnonzero(bad_o)[0])
+            obs.violation('sky-membership-depends-on-query-frame', f'{type(sky).__name__}.contains gave {bool(g_o[i])} for a position given in {other!r} but '
+                          f'{bool(exp_b[i])} for the same position in the image frame (pixel ({conv.x[i]!r}, {conv.y[i]!r}))')
+        else:
+            obs.ok(int(np.sum(wide)), 'membership-other-query-frame')
     # (1c) positions on a grid (an N-D SkyCoord): shape and values of the answer are those of the pixel image for the converted grid
     k = px.size // 2
     if k >= 1:
